@@ -644,20 +644,27 @@ func runScenario(seed int64, focus string) (evs []jev, blocked bool, dump string
 		wg.Add(1)
 		go func() { defer wg.Done(); down("k2", cctx) }()
 	}
-	down("k0", context.WithValue(context.Background(), ctxKey{}, "k0"))
-	// calls after shutdown must be refused
-	if rng.Intn(2) == 0 {
-		pub("late", []string{""}, "<none>")
-	}
-	if rng.Intn(2) == 0 {
-		w := &jw{t: t, id: "slate"}
-		t.mu.Lock()
-		t.subs[w] = "slate"
-		t.mu.Unlock()
-		t.log(jev{"e": "call.sub", "s": "slate", "t": []string{""}, "lid": "", "lidset": false, "lidname": ""})
-		err := j.Subscribe(context.Background(), sse.Subscription{Client: w, Topics: []string{""}})
-		t.log(jev{"e": "ret.sub", "s": "slate", "v": subClass(err)})
-	}
+	// the last Shutdown and the calls after it run under the same deadline as everything else: a Joe whose goroutine
+	// is stuck (in a replayer, say) makes this Shutdown wait for ever, and that is a verdict, not a hung driver
+	latePub, lateSub := rng.Intn(2) == 0, rng.Intn(2) == 0
+	wg.Add(1)
+	go func() {
+		defer wg.Done()
+		down("k0", context.WithValue(context.Background(), ctxKey{}, "k0"))
+		// calls after shutdown must be refused
+		if latePub {
+			pub("late", []string{""}, "<none>")
+		}
+		if lateSub {
+			w := &jw{t: t, id: "slate"}
+			t.mu.Lock()
+			t.subs[w] = "slate"
+			t.mu.Unlock()
+			t.log(jev{"e": "call.sub", "s": "slate", "t": []string{""}, "lid": "", "lidset": false, "lidname": ""})
+			err := j.Subscribe(context.Background(), sse.Subscription{Client: w, Topics: []string{""}})
+			t.log(jev{"e": "ret.sub", "s": "slate", "v": subClass(err)})
+		}
+	}()
 	fin := make(chan struct{})
 	go func() {
 		wg.Wait()
@@ -755,7 +762,30 @@ func cmdJoe(args []string) {
 	for i := 0; i < *n; i++ {
 		seed := *base + int64(i)
 		fmt.Fprintf(os.Stderr, "SCENARIO %d\n", seed)
-		evs, blocked, dump := runScenario(seed, *focus)
+		// a scenario has its own 10 s deadline for the calls it watches; a call the driver makes outside that watch (on this
+		// goroutine) and that never returns is the same finding, so the whole scenario is watched once more from here
+		type res struct {
+			evs     []jev
+			blocked bool
+			dump    string
+		}
+		outer := 40 * time.Second
+		if *focus == "firstuse" {
+			outer = 4 * time.Minute // 150 trials on fresh providers in one scenario
+		}
+		rc := make(chan res, 1)
+		go func() {
+			evs, blocked, dump := runScenario(seed, *focus)
+			rc <- res{evs, blocked, dump}
+		}()
+		var r res
+		select {
+		case r = <-rc:
+		case <-time.After(outer):
+			buf := make([]byte, 1<<18)
+			r = res{nil, true, string(buf[:runtime.Stack(buf, true)])}
+		}
+		evs, blocked, dump := r.evs, r.blocked, r.dump
 		if blocked {
 			fmt.Fprintf(os.Stderr, "BLOCKED %d\n%s\n", seed, dump)
 			for _, e := range evs {
